@@ -35,7 +35,7 @@ func init() {
 		Rule: "built with -race. For each shared-object kind (type-1, type-2, type-3, type-5 issuer, generic batch issuer, *ecdsa.PrivateKey/PublicKey, ed25519.PrivateKey) a FRESH object (fresh VOPRF key object, so lazily initialised state is untouched) is used by G goroutines released from a barrier, each running a seeded mix of Evaluate/EvaluateBatch/Verify/TokenKeyID/TokenKey/Sign/Verify/Blind* with its own arguments (the ECDSA kinds use keys on two to four different curves at the same moment, the burst kind signs 150 digests back to back per goroutine on three curves); repeated R times per kind, kinds rotated over worker processes so that package-level sync.Once state is first touched concurrently. " +
 			"Oracle: zero race-detector reports (GORACE log, de-duplicated by the outermost pat-go frames of both stacks) and every call's result satisfies its sequential oracle (responses finalize under the caller's own request state to a token valid under the reference verifier, Verify verdicts as expected for valid and bit-flipped tokens, key ids equal the value computed on a second object, signatures verify under the standard library, blinded keys equal the sequential result). " +
 			"distinct_nontrivial = fresh objects on which at least two goroutines were observed inside pat-go at the same time (atomic in-flight counter)",
-		Floors:      []string{"objects_with_overlap", "evaluate_results_ok", "verify_results_ok", "keyid_results_ok", "sign_results_ok", "blind_results_ok", "batch_results_ok", "kind_type1", "kind_type2", "kind_type3", "kind_type5", "kind_batch", "kind_ecdsa", "kind_ecdsa-burst", "kind_ed25519", "tampered_twin_refused"},
+		Floors:      []string{"objects_with_overlap", "evaluate_results_ok", "verify_results_ok", "keyid_results_ok", "sign_results_ok", "blind_results_ok", "batch_results_ok", "kind_type1", "kind_type2", "kind_type3", "kind_type5", "kind_batch", "kind_ecdsa", "kind_ecdsa-burst", "kind_ed25519", "tampered_twin_refused", "wide_repetitions_96_goroutines"},
 		Assumptions: []string{"the race detector reports conflicting accesses it observes; schedules that did not run are not judged", "each call has its own per-call arguments, as the statement requires"},
 		Race:        true,
 		Run:         runC17,
@@ -135,6 +135,13 @@ func runC17(c *core.Ctx) {
 			}
 			r := c.CaseRng()
 			run := &c17Run{c: c}
+			G := G
+			if rep%10 == 7 && kind != "ecdsa-burst" {
+				// a wide repetition: more callers in flight than any plausible internal limit on concurrent work (a limiter
+				// that is taken twice per call, or not given back on some path, blocks for good only beyond its capacity)
+				G = 96
+				c.Class("wide_repetitions_96_goroutines")
+			}
 			c.Eval(int64(G))
 			c.Note(fmt.Sprintf("concurrent %s rep %d", kind, rep))
 			seeds := make([][]byte, G)
